@@ -286,6 +286,28 @@ def record_trace(tu, rnd, length, cls=None):
     return {'dur': dur, 'ev': ev}
 
 
+def record_pair(tu, rnd, length):
+    """Two watches used side by side under one clock: each must behave as if it were alone (no state shared
+    between instances).  Returns the two traces; both contain every tick."""
+    _clock[0] = 0
+    durs = [rnd.choice([-1, 0, 2, 5, 1000]) for _ in range(2)]
+    ws = [tu.StopWatch(None if d == -1 else d) for d in durs]
+    evs = [[], []]
+    weights = [4] + [1] * (len(OPS) - 1)
+    for _ in range(length):
+        op = rnd.choices(OPS, weights)[0]
+        if op == 'tick':
+            d = rnd.choice([0, 1, 3, 7, 100])
+            _clock[0] += d
+            for ev in evs:
+                ev.append({'op': 'tick', 'arg': d, 'r': {'k': 'none', 'v': 0}})
+            continue
+        i = rnd.randrange(2)
+        arg = rnd.choice([0, 1, 5, 50]) if op == 'elapsed_max' else 0
+        evs[i].append({'op': op, 'arg': arg, 'r': call(ws[i], op, arg)})
+    return [{'dur': durs[0], 'ev': evs[0]}, {'dur': durs[1], 'ev': evs[1]}]
+
+
 def validate_traces(ctx, traces, label, expect_reject=None):
     """Batch validation; returns the set of rejected trace indices (0-based)."""
     path = os.path.join(ctx.work, 'traces_%s.json' % label)
@@ -492,6 +514,9 @@ def run(ctx):
     for b in range(0, n_tr, batch):
         traces = [record_trace(tu, rnd, rnd.choice([30, 60, 120, 200]))
                   for _ in range(min(batch, n_tr - b))]
+        # every fifth trace comes from a pair of watches used side by side
+        for j in range(0, len(traces) - 1, 10):
+            traces[j], traces[j + 1] = record_pair(tu, rnd, rnd.choice([60, 120, 200]))
         first = first or traces[0]
         rejected, r = validate_traces(ctx, traces, 'b%d' % b)
         ctx.tlc(r, 'trace validation batch %d' % b, counts_as_states=False)
